@@ -14,7 +14,7 @@ META = dict(
          'user, workflow (flat and hierarchical), cycle, task a value out of '
          'a list of strings built from the separator-adjacent characters each '
          'field admits (dots, dashes, plus, digits, inner spaces, unicode, '
-         '"@", "%"), a job number 1..12 or NN, which of the lower tokens are '
+         '"@", "%", "~" in task names and selectors), a job number 1..12 or NN, which of the lower tokens are '
          'present, and which selectors are attached. z3 decides on every path '
          'that detokenise followed by the real tokenise returns the same '
          'tokens (job numbers zero-padded, selectors kept), that tokenise '
@@ -30,21 +30,21 @@ META = dict(
     functions=['Tokens.__init__/__eq__', 'tokenise', 'detokenise',
                'UNIVERSAL_ID / RELATIVE_ID regexes', 'legacy_tokenise',
                'upgrade_legacy_ids', '_dict_strip'],
-    bounds=['5 values per field x presence of cycle/task/job x 3 selector '
+    bounds=['5 values per field (7 task names) x presence of cycle/task/job x 3 selector '
             'bits x job in {1, 7, 12, NN}'],
     stubs=['none'],
     assumptions=['field values do not contain the separators "/", ":" '
-                 '(workflow: "/" only between segments) or "~", and cycle '
-                 'points no ":"'],
+                 '(workflow: "/" only between segments); user, workflow and '
+                 'cycle contain no "~" (task names and selectors may)'],
     outside=['id_cli parsing of command-line arguments', 'glob characters'],
 )
 
 USERS = ['u', 'u.v', 'é', 'u v', '1']
 WFS = ['w', 'a/b', 'a.b/c-1', 'w x/y', 'a/b/c']
 CYCLES = ['1', '20000101T0000Z', '-1', '*', 'c.1']
-TASKS = ['t', 't.1', 't-a', 't+b%c@d', 'foo.bar']
+TASKS = ['t', 't.1', 't-a', 't+b%c@d', 'foo.bar', 'a~b', '~t']
 JOBS = ['1', '7', '12', 'NN']
-SELS = ['s', 'succeeded', 'x-y']
+SELS = ['s', 'succeeded', 'x~y']
 
 
 def _roundtrip(ui, wi, ci, ti, ji, level, sels):
@@ -101,7 +101,7 @@ def roundtrip(ui: int, wi: int, ci: int, ti: int, ji: int, level: int,
               s0: bool, s1: bool, s2: bool) -> bool:
     """
     pre: sl(ui=ui, wi=wi)
-    pre: 0 <= ui < 5 and 0 <= wi < 5 and 0 <= ci < 5 and 0 <= ti < 5
+    pre: 0 <= ui < 5 and 0 <= wi < 5 and 0 <= ci < 5 and 0 <= ti < 7
     pre: 0 <= ji < 4 and 0 <= level <= 3
     pre: level >= 3 or ji == 0
     pre: level >= 2 or ti == 0
@@ -109,7 +109,7 @@ def roundtrip(ui: int, wi: int, ci: int, ti: int, ji: int, level: int,
     post: _
     """
     ui, wi, ci, ti = (fork_int(ui, 0, 4), fork_int(wi, 0, 4),
-                      fork_int(ci, 0, 4), fork_int(ti, 0, 4))
+                      fork_int(ci, 0, 4), fork_int(ti, 0, 6))
     ji, level = fork_int(ji, 0, 3), fork_int(level, 0, 3)
     sels = [fork_bool(b) for b in (s0, s1, s2)]
     with concrete():
